@@ -5,7 +5,12 @@
 
 package bw6761
 
-import "math/big"
+import (
+	"math/big"
+
+	"github.com/consensys/gnark-crypto/ecc"
+	"github.com/consensys/gnark-crypto/ecc/bw6-761/fr"
+)
 
 var _ = big.NewInt
 
@@ -42,6 +47,19 @@ func VerifG1AffineFromExt(p *G1Affine, q *g1JacExtended) { p.fromJacExtended(q) 
 func VerifG1JacFromExt(p *G1Jac, q *g1JacExtended)       { p.fromJacExtended(q) }
 func VerifG1JacUnsafeFromExt(p *G1Jac, q *g1JacExtended) { p.unsafeFromJacExtended(q) }
 
+// VerifInnerMsmG1 runs the bucket method with a forced window size c.
+func VerifInnerMsmG1(c uint64, points []G1Affine, scalars []fr.Element, nbTasks int) G1Jac {
+	var p G1Jac
+	_innerMsmG1(&p, c, points, scalars, ecc.MultiExpConfig{NbTasks: nbTasks})
+	return p
+}
+
+// VerifPartitionScalars forwards to partitionScalars (digits only).
+func VerifPartitionScalars(scalars []fr.Element, c uint64, nbTasks int) []uint16 {
+	d, _ := partitionScalars(scalars, c, nbTasks)
+	return d
+}
+
 // ---- G2 ----
 
 // VerifG2JacExtended exposes the extended-Jacobian bucket type.
@@ -74,3 +92,10 @@ func VerifG2ExtOp(op string, p, q *g2JacExtended, a *G2Affine) {
 func VerifG2AffineFromExt(p *G2Affine, q *g2JacExtended) { p.fromJacExtended(q) }
 func VerifG2JacFromExt(p *G2Jac, q *g2JacExtended)       { p.fromJacExtended(q) }
 func VerifG2JacUnsafeFromExt(p *G2Jac, q *g2JacExtended) { p.unsafeFromJacExtended(q) }
+
+// VerifInnerMsmG2 runs the bucket method with a forced window size c.
+func VerifInnerMsmG2(c uint64, points []G2Affine, scalars []fr.Element, nbTasks int) G2Jac {
+	var p G2Jac
+	_innerMsmG2(&p, c, points, scalars, ecc.MultiExpConfig{NbTasks: nbTasks})
+	return p
+}
